@@ -135,7 +135,7 @@ def specs(tier, seed):
                 out.append({"tree": "fi_hedge", "stack": {"gate": g}, "fi_weights": w, "data": data, "alpha": "decimal", "late": False, "integer": False, "capital": 0.0, "rng": 0, "fee": "propdec", "spread": 0.25})
     if tier != "quick":
         more = [s for s in R.family("thorough", seed) if s["tree"] != "flat" or s["data"] == "d6"]
-        out += more[::3]
+        out += more[::8]
     return out
 
 
